@@ -101,3 +101,36 @@ func TestSingleStepOperandsPastEnd(t *testing.T) {
 		}()
 	}
 }
+
+// machine followed by pages on the new machine: `machine` stored a Memory whose page table was a nil map, so the
+// first `pages` call on it panicked with "assignment to entry in nil map" (a two-call sequence crashing the node).
+func TestMachineThenPages(t *testing.T) {
+	const progAddr = uint64(32 * ZP)
+	blob := []byte{0, 0, 1, 0, 1}
+	page := make([]byte, ZP)
+	copy(page, blob)
+	outer := &Memory{Pages: map[uint32]*Page{uint32(progAddr / ZP): {Value: page, Access: MemoryReadWrite}}}
+	regs := Registers{}
+	gas := Gas(1_000_000)
+	vm := &VMState{Registers: &regs, Memory: outer, Gas: &gas}
+	addition := HostCallArgs{}
+	addition.IntegratedPVMMap = IntegratedPVMMap{}
+	regs[7], regs[8], regs[9] = progAddr, uint64(len(blob)), 0
+	out := machine(OmegaInput{VM: vm, Addition: addition})
+	if out.ExitReason != ExitContinue || regs[7] != 0 {
+		t.Fatalf("machine: exit %v omega7 %d", out.ExitReason, regs[7])
+	}
+	defer func() {
+		if r := recover(); r != nil {
+			t.Fatalf("pages on a fresh machine: run-time panic: %v", r)
+		}
+	}()
+	regs[7], regs[8], regs[9], regs[10] = 0, 16, 1, 2 // machine 0, page 16, one page, read-write zeroed
+	out = pages(OmegaInput{VM: vm, Addition: out.Addition})
+	if regs[7] != OK {
+		t.Fatalf("pages: omega7 = %d, want OK", regs[7])
+	}
+	if pg := out.Addition.IntegratedPVMMap[0].Memory.Pages[16]; pg == nil || pg.Access != MemoryReadWrite {
+		t.Fatalf("page 16 of the inner machine not mapped read-write")
+	}
+}
